@@ -480,7 +480,8 @@ func verifC10EnvValue(r *verifutil.Rand, t reflect.Type) string {
 	case reflect.Float64:
 		return r.Pick("0", "1.5", "-2", "nan", "x")
 	case reflect.String:
-		return r.Pick("", "publisher", "redirect", "rpiCamera", "rtsp://h/p", ":1234", "%path/%s", "cmd", "auto", "x")
+		return r.Pick("", "publisher", "redirect", "rpiCamera", "rtsp://h/p", ":1234", "%path/%s", "cmd", "auto", "x",
+			"rtsp://h/s?channel=1&subtype=0", "=", "cmd --k=v", "%path/%s=%f", "$a:b#c,d")
 	case reflect.Slice:
 		return r.Pick("", "a", "a,b", "1,2", "1.5,2")
 	}
